@@ -310,7 +310,9 @@ class IpModel:
             elif t[0] == "boolop" and t[1] == "or" and t[2] == (ps, ("const", 0)):
                 ok = True
             elif t == ps:
-                ok = any(M.is_none_test(c, ps) is not None for c, _, _ in p2.conds) or self.f_init.defaults.get("preserve_suffix") is not None
+                ok = p2.truth(("compare", ("is",), (ps, ("const", None)))) is False
+            elif M.is_const(t, 0):
+                ok = p2.truth(("compare", ("is",), (ps, ("const", None)))) is True
             rep.ob(cl + ".suffix-default", fn.name, ok, "self.%s = %s; expected the parameter, 0 when None" % (self.SUFFIX, show(t)), where(fn, e2.node))
         # width format
         if self.FMT is None:
